@@ -104,7 +104,12 @@ def main(ctx, replay=None):
                     continue
                 content = {}
                 for fn, arr in expect.items():
-                    rr, cc, vv = parse_table(out / fn)
+                    try:
+                        rr, cc, vv = parse_table(out / fn)
+                    except Exception as ex:
+                        ctx.violation(f"{fn} (keyword '{r['kw']}') is not a table of numbers: {(out / fn).read_text()[:80]!r}", {**case, "file": fn},
+                                      {**sig, "clause": "content"})
+                        break
                     content[fn] = (out / fn).read_bytes()
                     want = arr[:-4, :] * FACT[(r["ufrom"], r["uto"])]
                     bad = None
@@ -139,11 +144,24 @@ def overrides(ctx, calc, wd, ds):
         try:
             ResultsWriter(calc.pressure_base).write({"keyword": "bm_V", "fname": "my_bulk.dat"})
             ResultsWriter(calc.pressure_base).write({"keyword": "G_V", "unit": "kbar"})
+            ResultsWriter(calc.volume_base).write({"keyword": "cij_t", "unit": "kbar"})
         except Exception as ex:
             ctx.violation(f"override raised {ex!r}", {}, {"clause": "override_raises"})
             return
     ctx.count({"override": "fname+unit"})
-    files = sorted(p.name for p in out.iterdir())
+    files = sorted(p.name for p in out.iterdir() if not p.name.startswith("c"))
+    k0 = calc.modulus_keys[0]
+    fij = out / ("c%d%dt_tv_gpa.txt" % k0.voigt)
+    if not fij.exists():
+        ctx.violation("unit override on an ij keyword did not write the component files", {}, {"clause": "override_unit_ij"})
+    else:
+        try:
+            _, _, v3 = parse_table(fij)
+        except Exception:
+            ctx.violation(f"{fij.name} written with a unit override is not a table of numbers", {}, {"clause": "override_unit_ij"})
+            return
+        if v3.shape != numpy.asarray(calc.volume_base.modulus_isothermal[k0])[:-4].shape or not numpy.allclose(v3, numpy.asarray(calc.volume_base.modulus_isothermal[k0])[:-4] * consts.RY_BOHR3_TO_GPA * 10.0, rtol=1e-7):
+            ctx.violation("unit override 'kbar' not honoured for the per-component keyword cij_t", {}, {"clause": "override_unit_ij"})
     if files != ["G_V_tp_gpa.txt", "my_bulk.dat"]:
         ctx.violation(f"file-name override not honoured: files {files}", {"files": files}, {"clause": "override_fname"})
         return
